@@ -99,6 +99,26 @@ pub open spec fn keys_distinct<A, B>(xs: Seq<(A, B)>) -> bool {
 pub broadcast axiom fn axiom_hashmap_order<K: View, V: View>(m: HashMap<K, V>)
     ensures keys_distinct(#[trigger] m.order()), map_of(m.order()) == m@;
 impl<K: View, V: View> HashMap<K, V> {
+    /// std `HashMap::new`: empty, allocates nothing
+    #[verifier::external_body]
+    pub fn new() -> (r: Self)
+        ensures r@ == Map::<K::V, V::V>::empty(),
+    { unimplemented!() }
+    /// std `HashMap::contains_key`
+    #[verifier::external_body]
+    pub fn contains_key(&self, key: &K) -> (r: bool)
+        ensures r == self@.dom().contains(key@),
+    { unimplemented!() }
+    /// std `HashMap::get`
+    #[verifier::external_body]
+    pub fn get(&self, key: &K) -> (r: Option<&V>)
+        ensures r is Some <==> self@.dom().contains(key@), r is Some ==> (*r->Some_0)@ == self@[key@],
+    { unimplemented!() }
+    /// std `HashMap::is_empty`
+    #[verifier::external_body]
+    pub fn is_empty(&self) -> (r: bool)
+        ensures r == (self.order().len() == 0),
+    { unimplemented!() }
     /// std `HashMap::insert`: insert or replace
     #[verifier::external_body]
     pub fn insert(&mut self, key: K, value: V) -> (r: Option<V>)
